@@ -668,6 +668,12 @@ impl LayerGroup {
 
         let old_pos = cursor.position();
 
+        // the offsets follow: a count that does not fit in the rest of the buffer is corrupt
+        let remaining = (buffer.len() as u64).saturating_sub(cursor.position());
+        if chunk_header.layer_count < 0 || chunk_header.layer_count as u64 * 4 > remaining {
+            return None;
+        }
+
         let mut layer_offsets = vec![0i32; chunk_header.layer_count as usize];
         for i in 0..chunk_header.layer_count {
             layer_offsets[i as usize] = cursor.read_le::<i32>().unwrap();
@@ -691,6 +697,13 @@ impl LayerGroup {
             let mut objects = Vec::new();
             // read instance objects
             {
+                let remaining = (buffer.len() as u64).saturating_sub(cursor.position());
+                if header.instance_object_count < 0
+                    || header.instance_object_count as u64 * 4 > remaining
+                {
+                    return None;
+                }
+
                 let mut instance_offsets = vec![0i32; header.instance_object_count as usize];
                 for i in 0..header.instance_object_count {
                     instance_offsets[i as usize] = cursor.read_le::<i32>().unwrap();
